@@ -71,6 +71,11 @@ class Operator:
 
             Used in dot operator for vector-vector, matrix-vector, vector-matrix and matrix-matrix multiplications.
         """
+        # the index also has to reach operators nested inside this one, e.g. (A+B)*2.0 as an operand of dot:
+        # clone_with_index passes it down, setting self.index alone does not
+        clone = self.clone_with_index(index)
+        if clone is not self:
+            return clone.term(time)
         temp = self.index
         self.index = index
         result = self.term(time)
